@@ -351,6 +351,8 @@ std::pair<ebpps_sample<T, A>, size_t> ebpps_sample<T, A>::deserialize(const uint
   ptr += copy_from_mem(ptr, c);
   if (c < 0.0)
     throw std::runtime_error("sketch image has C < 0.0 during deserializaiton");
+  if (!(c < 4294967296.0))
+    throw std::runtime_error("sketch image has C that does not fit a 32-bit item count during deserialization");
 
   double c_int;
   const double c_frac = std::modf(c, &c_int);
@@ -386,6 +388,8 @@ ebpps_sample<T, A> ebpps_sample<T, A>::deserialize(std::istream& is, const SerDe
   const double c = read<double>(is);
   if (c < 0.0)
     throw std::runtime_error("sketch image has C < 0.0 during deserializaiton");
+  if (!(c < 4294967296.0))
+    throw std::runtime_error("sketch image has C that does not fit a 32-bit item count during deserialization");
 
   double c_int;
   const double c_frac = std::modf(c, &c_int);
